@@ -90,11 +90,17 @@ fn response_bytes(x: usize, e: &Value) -> (Vec<Vec<u8>>, bool) {
             }
             let cs = e["chunk"].as_u64().unwrap_or(7) as usize;
             for c in body.chunks(cs.max(1)) {
-                wire_body.extend_from_slice(format!("{:x}\r\n", c.len()).as_bytes());
+                // optionally a chunk extension after the size (valid syntax the decoder has to skip); never combined with `cut`
+                let ext = if e.get("ext").and_then(|x| x.as_bool()).unwrap_or(false) { ";name=val;flag" } else { "" };
+                wire_body.extend_from_slice(format!("{:x}{ext}\r\n", c.len()).as_bytes());
                 wire_body.extend_from_slice(c);
                 wire_body.extend_from_slice(b"\r\n");
             }
-            wire_body.extend_from_slice(b"0\r\n\r\n");
+            if e.get("ext").and_then(|x| x.as_bool()).unwrap_or(false) {
+                wire_body.extend_from_slice(b"0;last\r\n\r\n");
+            } else {
+                wire_body.extend_from_slice(b"0\r\n\r\n");
+            }
         }
         _ => {
             wire_body = body.clone();
